@@ -890,7 +890,8 @@ def _aaa(draw, og):
 def _aoa(draw, og):
     a = og.array(draw, min_ndim=1)
     nd = ndim_of(a)
-    axes = draw(st.lists(st.integers(0, nd - 1), min_size=1, max_size=nd, unique=True))
+    axes = draw(st.lists(st.integers(0, nd - 1), min_size=0 if draw(st.integers(0, 5)) == 0 else 1, max_size=nd,
+                         unique=True))
     return {"args": [{"$fn": "sum"}, P(a), axes], "kw": {}}
 
 
